@@ -80,6 +80,13 @@ Proof.
   destruct x; try discriminate Hx. cbn [mapM name_of bind]. rewrite Hns. cbn [bind]. eauto.
 Qed.
 
+Lemma enum_seq_any_is : forall x l, forallb is_enum_member l = true -> exists r, mapM (is_member_obj x) l = Ok r.
+Proof.
+  intros x. induction l as [|y l IH]; intro H; [exists []; reflexivity|].
+  cbn [forallb] in H. apply andb_true_iff in H as [Hy Hl]. destruct (IH Hl) as (r & Hr).
+  destruct y; try discriminate Hy. cbn [mapM is_member_obj bind]. rewrite Hr. cbn [bind]. eauto.
+Qed.
+
 Lemma sized_sound : forall c v, sized c = true -> acls_has c v = true -> exists z, py_len v = Ok (PNum (NInt z)).
 Proof.
   intros c v Hp Hc.
@@ -317,7 +324,7 @@ Qed.
 
 Lemma refine_length : forall c env b, List.length (a_vars (refine env c b)) = List.length (a_vars env).
 Proof.
-  induction c as [k|e ks|c IH|x IHx y IHy|x IHx y IHy|op a b0|e k|e k|e|e|a b0|a b0]; intros env b; cbn [refine];
+  induction c as [k|e ks|c IH|x IHx y IHy|x IHx y IHy|op a b0|e k|e k|e|e|a b0|a b0|e|e ce]; intros env b; cbn [refine];
     try reflexivity.
   - destruct (Bool.eqb k b); [reflexivity|]. cbn [a_vars]. apply map_length.
   - destruct b; [apply refine_on_length|reflexivity].
@@ -442,7 +449,7 @@ Section Sound.
   Lemma refine_sound : forall c env vals b,
       env_ok env self vals = true -> eval_cond re self vals c = Ok b -> env_ok (refine env c b) self vals = true.
   Proof.
-    induction c as [k|e ks|c IH|x IHx y IHy|x IHx y IHy|op a b0|e k|e k|e|e|a b0|a b0]; intros env vals b H He;
+    induction c as [k|e ks|c IH|x IHx y IHy|x IHx y IHy|op a b0|e k|e k|e|e|a b0|a b0|e|e ce]; intros env vals b H He;
       cbn [refine eval_cond] in *; try exact H.
     - inversion He; subst. rewrite Bool.eqb_reflx. exact H.
     - destruct (eval_val self vals e) as [v|] eqn:Hv; [|discriminate He]. cbn [bind] in He. inversion He; subst.
@@ -488,7 +495,7 @@ Section Sound.
   Lemma csafe_sound : forall c env vals,
       env_ok env self vals = true -> csafe env c = true -> exists b, eval_cond re self vals c = Ok b.
   Proof.
-    induction c as [k|e ks|c IH|x IHx y IHy|x IHx y IHy|op a b0|e k|e k|e|e|a b0|a b0]; intros env vals H Hs;
+    induction c as [k|e ks|c IH|x IHx y IHy|x IHx y IHy|op a b0|e k|e k|e|e|a b0|a b0|e|e ce]; intros env vals H Hs;
       cbn [csafe] in Hs; (apply orb_true_iff in Hs as [Hb|Hs]; [exfalso; eapply bottom_absurd; eassumption|]);
       cbn [eval_cond].
     - eauto.
@@ -534,6 +541,13 @@ Section Sound.
       destruct (numeric_sound _ _ Hpa Hha) as (n & Hn). destruct (nonzero_sound _ _ Hpb Hhb) as (m & Em & Hm0).
       subst y. unfold py_mod. rewrite Hn, Hm0. eauto.
     - discriminate Hs.
+    - destruct (vsafe_sound _ _ _ H Hs) as (v & Hv). rewrite Hv. cbn [bind]. eauto.
+    - apply andb_true_iff in Hs as [Hs Hk]. apply andb_true_iff in Hs as [He Hce].
+      destruct (vsafe_sound _ _ _ H He) as (x & Hx). destruct (vsafe_sound _ _ _ H Hce) as (cv & Hcv).
+      rewrite Hx, Hcv. cbn [bind].
+      destruct (all_of_has _ _ _ Hk (aty_sound _ _ _ _ H Hcv)) as (c & Hp & Hh).
+      destruct (enum_seq_sound _ _ Hp Hh) as (l & [El|El] & Hl); subst cv; cbn [any_is];
+        destruct (enum_seq_any_is x l Hl) as (r & Hr); rewrite Hr; cbn [bind]; eauto.
   Qed.
 
   Lemma tsafe_sound : forall env vals a x,
